@@ -62,6 +62,9 @@ def body(ck, F, cfg):
         from .. import witness
 
         witness.require(ck, ['W1', 'W1v', 'W2a', 'W2b', 'W2c'], "WITNESS")
+    from .common import hidden_effects_rule
+
+    hidden_effects_rule(ck, F, "R06.8")
     ref = SC.reference_schedule()
     col_v, col_p = [], []
     rv, parts_v = SC.verifier_schedule(F, col_v)
